@@ -81,6 +81,8 @@ pub enum G {
     Pratt(PForm, Box<G>, Vec<POp>),
     // version 3: token trees
     NestedIn(Box<G>),
+    /// `(NestedVia a)`: `a.nested_in(never.or(group))`: the compound `b` of FORMAT.md
+    NestedVia(Box<G>),
     /// `(ExtWrap a)`: `Ext(W(a))` with `ExtParser::parse = inp.parse(&a)` and `ExtParser::check = inp.check(&a)`
     ExtWrap(Box<G>),
     /// `(Skip n)`: `custom(|inp| { n times inp.skip(); Ok(()) })`
@@ -726,6 +728,7 @@ pub fn parse_g(tk: Tk, s: &Sexp) -> R<G> {
             G::Pratt(form, bg(atom)?, ops)
         }
         ("NestedIn", [a]) => G::NestedIn(bg(a)?),
+        ("NestedVia", [a]) => G::NestedVia(bg(a)?),
         ("ExtWrap", [a]) => G::ExtWrap(bg(a)?),
         ("Skip", [n]) => G::Skip(nat(n)?),
         ("Padded", [ws, a]) => G::Padded(toks(tk, ws)?, bg(a)?),
@@ -825,6 +828,7 @@ impl G {
             | G::RecDecl(a)
             | G::Boxed(a)
             | G::NestedIn(a)
+            | G::NestedVia(a)
             | G::ExtWrap(a)
             | G::Lazy(a)
             | G::Padded(_, a)
